@@ -36,9 +36,9 @@ def seg_datagram(xid, total, off, chunk):
 
 
 def run_case(case):
-    signal.signal(signal.SIGALRM, _alarm)
+    signal.signal(signal.SIGVTALRM, _alarm)
     sys.unraisablehook = lambda *_a: None     # the watchdog may fire inside a context that swallows exceptions
-    signal.setitimer(signal.ITIMER_REAL, 5.0, 1.0)
+    signal.setitimer(signal.ITIMER_VIRTUAL, 3.0, 1.0)
     world = UdpclWorld(case['mtu'])
     once = True
     try:
@@ -88,7 +88,7 @@ def run_case(case):
     except Hang:
         world.emit('Hang', where='sender')
     finally:
-        signal.setitimer(signal.ITIMER_REAL, 0)
+        signal.setitimer(signal.ITIMER_VIRTUAL, 0)
     return world.finish(once and not case.get('drop'))
 
 
